@@ -491,6 +491,56 @@ func c11(r *report.Run) {
 		order += int64(total)
 		lenDone = L
 	}
+	// (i') operators written tight against number literals: the spaced text (validated by the reference parser) and the
+	// text without blanks must give the same tree
+	{
+		lits := []string{"1", "1.5", "a", "1e3", ".5", "(a)", "a.b", "f(1)", "0x1F", "1_0", "2.5e-3", `"s"`, "#"}
+		for _, l := range lits {
+			for _, rr := range lits {
+				for _, op := range []string{"..", "+", "-", "*", "**", "/", "%", "==", "<", ">=", "!=", "?", "in"} {
+					spaced := l + " " + op + " " + rr
+					tight := l + op + rr
+					if op == "?" {
+						spaced, tight = l+" ? "+rr+" : "+l, l+"?"+rr+":"+l
+					}
+					if op == "in" {
+						tight = l + " in " + "[" + rr + "]"
+						spaced = l + " in [ " + rr + " ]"
+					}
+					if strings.Contains(l, "#") || strings.Contains(rr, "#") {
+						spaced, tight = "all(a, {"+spaced+"})", "all(a,{"+tight+"})"
+					}
+					want, perr, lerr := refparse.ParseString(spaced)
+					if lerr != nil || perr != nil {
+						continue
+					}
+					if (op == "-" && strings.HasPrefix(rr, "-")) || (op == "." || (op == ".." && (strings.HasSuffix(l, ".") || strings.HasPrefix(rr, ".")))) {
+						continue
+					}
+					if op == "?" && strings.HasPrefix(rr, ".") {
+						continue // "?." is one token (longest match)
+					}
+					if op == "+" || op == "-" {
+						if strings.HasSuffix(l, "e") || strings.HasSuffix(l, "E") {
+							continue
+						}
+					}
+					gotS, errS := realParse(spaced)
+					gotT, errT := realParse(tight)
+					atomic.AddInt64(&parses, 2)
+					order++
+					switch {
+					case errS != nil || gotS != want:
+						r.Report(report.Violation{Sub: "tight", Kind: "spaced-form-differs-from-reference", Witness: spaced, Order: order, Detail: map[string]interface{}{"reference_tree": want, "parsed_tree": gotS, "error": fmt.Sprint(errS)}})
+					case errT != nil:
+						r.Report(report.Violation{Sub: "tight", Kind: "rejected-without-blanks", Witness: tight, Order: order, Detail: map[string]interface{}{"spaced": spaced, "error": fmt.Sprint(errT)}})
+					case gotT != want:
+						r.Report(report.Violation{Sub: "tight", Kind: "different-tree-without-blanks", Witness: tight, Order: order, Detail: map[string]interface{}{"spaced": spaced, "expected_tree": want, "parsed_tree": gotT}})
+					}
+				}
+			}
+		}
+	}
 	// (iii) one token inserted, deleted or doubled at every token boundary of every small tree: accept/reject and
 	// the tree must agree with the reference grammar
 	var edits int64
